@@ -209,8 +209,8 @@ def run(out):
             out.sample({'payload': p, 'text': vecs[p]['t']})
 
     atoms = {"a", " b ", "", "  ", "*c", "$x", "[d]", "a>b", "${1}", "$#", "it$$", "x y", "{z}", ".c", "eBSf", "'q'", "~"}
-    winsts = [('wrap-exhaustive', dict(constants={'MaxLines': 2 if quick else 3, 'LineAtoms': atoms, 'TemplateIdx': set(range(1, 25))})),
-              ('wrap-simulated', dict(constants={'MaxLines': 6, 'LineAtoms': atoms, 'TemplateIdx': set(range(1, 25))},
+    winsts = [('wrap-exhaustive', dict(constants={'MaxLines': 2 if quick else 3, 'LineAtoms': atoms, 'TemplateIdx': set(range(1, 27))})),
+              ('wrap-simulated', dict(constants={'MaxLines': 6, 'LineAtoms': atoms, 'TemplateIdx': set(range(1, 27))},
                                       simulate=3 if quick else 60, depth=7, seed=out.seed))]
     for name, kw in winsts:
         r = common.run_tlc('AbbrWrap', timeout=3000, heap='12g', **kw)
